@@ -102,4 +102,62 @@ static inline sv_t sv_substr(sv_t s, size_t pos, size_t n){
     __CPROVER_assert(n <= (CAP),"capacity bound of the check exceeded"); \
     for(size_t k_=0;k_<(CAP);++k_){ if(k_>=v->size && k_<n) v->data[k_]=x; } v->size=n; }
 
+/* ---------- vector<scalar> extras: find / reverse / (n,val) constructor ---------- */
+#define CC_DEFINE_VEC_SCALAR(NAME,T,CAP) \
+  static inline size_t NAME##_find(const NAME* v, T x){ size_t r_ = v->size; \
+    for(size_t k_=(CAP);k_>0;--k_){ if(k_-1<v->size && v->data[k_-1]==x) r_=k_-1; } return r_; } \
+  static inline void NAME##_reverse(NAME* v){ NAME c_ = *v; \
+    for(size_t k_=0;k_<(CAP);++k_){ if(k_<c_.size) v->data[k_]=c_.data[c_.size-1-k_]; } } \
+  static inline NAME NAME##_filled(size_t n, T x){ NAME v; v.iter=0; \
+    __CPROVER_assert(n <= (CAP),"capacity bound of the check exceeded"); \
+    for(size_t k_=0;k_<(CAP);++k_){ v.data[k_]=x; } v.size=n; return v; }
+
+/* ---------- std::unordered_set<scalar> as duplicate-free array (iteration order = insertion order;
+ *            the real order is unspecified, specs compare results as sets) ---------- */
+#define CC_DEFINE_USET(NAME,T,CAP) \
+  typedef struct { T data[CAP]; size_t size; int iter; } NAME; \
+  static inline NAME NAME##_new(void){ NAME v; v.size=0; v.iter=0; return v; } \
+  static inline size_t NAME##_size(const NAME* v){ return v->size; } \
+  static inline cc_bool NAME##_empty(const NAME* v){ return v->size==0; } \
+  static inline size_t NAME##_find(const NAME* v, T x){ size_t r_ = v->size; \
+    for(size_t k_=(CAP);k_>0;--k_){ if(k_-1<v->size && v->data[k_-1]==x) r_=k_-1; } return r_; } \
+  static inline cc_bool NAME##_contains(const NAME* v, T x){ return NAME##_find(v,x) != v->size; } \
+  static inline void NAME##_insert(NAME* v, T x){ \
+    __CPROVER_assert(v->iter==0,"unordered_set modified during range-for (iterator invalidation)"); \
+    if(!NAME##_contains(v,x)){ __CPROVER_assert(v->size < (CAP),"capacity bound of the check exceeded"); v->data[v->size]=x; v->size=v->size+1; } } \
+  static inline void NAME##_erase(NAME* v, T x){ \
+    __CPROVER_assert(v->iter==0,"unordered_set modified during range-for (iterator invalidation)"); \
+    size_t i_ = NAME##_find(v,x); if(i_ != v->size){ \
+      for(size_t k_=0;k_<(CAP);++k_){ if(k_>=i_ && k_+1<v->size) v->data[k_]=v->data[k_+1]; } v->size=v->size-1; } } \
+  static inline void NAME##_clear(NAME* v){ v->size=0; } \
+  static inline NAME NAME##_of1(T a){ NAME v = NAME##_new(); NAME##_insert(&v,a); return v; } \
+  static inline NAME NAME##_of2(T a, T b){ NAME v = NAME##_of1(a); NAME##_insert(&v,b); return v; }
+
+/* ---------- std::unordered_map<scalar,scalar> as association array with unique keys ---------- */
+#define CC_DEFINE_UMAP(NAME,K,V,CAP) \
+  typedef struct { K keys[CAP]; V vals[CAP]; size_t size; int iter; } NAME; \
+  static inline NAME NAME##_new(void){ NAME m; m.size=0; m.iter=0; return m; } \
+  static inline size_t NAME##_size(const NAME* m){ return m->size; } \
+  static inline cc_bool NAME##_empty(const NAME* m){ return m->size==0; } \
+  static inline size_t NAME##_find(const NAME* m, K k){ size_t r_ = m->size; \
+    for(size_t k_=(CAP);k_>0;--k_){ if(k_-1<m->size && m->keys[k_-1]==k) r_=k_-1; } return r_; } \
+  static inline cc_bool NAME##_contains(const NAME* m, K k){ return NAME##_find(m,k) != m->size; } \
+  static inline V NAME##_at(const NAME* m, K k){ size_t i_ = NAME##_find(m,k); \
+    CC_THROWS(i_ != m->size,"unordered_map::at throws std::out_of_range"); return m->vals[i_]; } \
+  static inline void NAME##_emplace(NAME* m, K k, V v){ \
+    __CPROVER_assert(m->iter==0,"unordered_map modified during range-for (iterator invalidation)"); \
+    if(!NAME##_contains(m,k)){ __CPROVER_assert(m->size < (CAP),"capacity bound of the check exceeded"); m->keys[m->size]=k; m->vals[m->size]=v; m->size=m->size+1; } } \
+  static inline void NAME##_erase(NAME* m, K k){ \
+    __CPROVER_assert(m->iter==0,"unordered_map modified during range-for (iterator invalidation)"); \
+    size_t i_ = NAME##_find(m,k); if(i_ != m->size){ \
+      for(size_t k_=0;k_<(CAP);++k_){ if(k_>=i_ && k_+1<m->size){ m->keys[k_]=m->keys[k_+1]; m->vals[k_]=m->vals[k_+1]; } } m->size=m->size-1; } } \
+  static inline void NAME##_clear(NAME* m){ m->size=0; }
+
+/* ---------- std::set<std::pair<A,B>> (static lookup tables) ---------- */
+#define CC_DEFINE_PSET(NAME,A,B,CAP) \
+  typedef struct { A a[CAP]; B b[CAP]; size_t size; int iter; } NAME; \
+  static inline cc_bool NAME##_contains(const NAME* s, A x, B y){ cc_bool r_ = 0; \
+    for(size_t k_=0;k_<(CAP);++k_){ if(k_<s->size && s->a[k_]==x && s->b[k_]==y) r_=1; } return r_; } \
+  static inline size_t NAME##_size(const NAME* s){ return s->size; }
+
 #endif
